@@ -153,7 +153,17 @@ where
 	check_ttl(w, &sl)?;
 	if sl.state == SlateState::Invoice2 {
 		// Add our contribution to the offset
-		sl.adjust_offset(&w.keychain(keychain_mask)?, &context)?;
+		if context.calculated_excess.is_some() {
+			// self-send: the stored context is the merged one written by
+			// `process_invoice_tx`, which has already accounted for every input and
+			// output; only the invoice side's excess key is left
+			let mut key_only = context.clone();
+			key_only.input_ids.clear();
+			key_only.output_ids.clear();
+			sl.adjust_offset(&w.keychain(keychain_mask)?, &key_only)?;
+		} else {
+			sl.adjust_offset(&w.keychain(keychain_mask)?, &context)?;
+		}
 
 		let mut temp_ctx = context.clone();
 		temp_ctx.sec_key = context.initial_sec_key.clone();
